@@ -282,10 +282,14 @@ func GenProgFiles(r *core.Rand, n int, twoFiles bool) *Prog {
 		return f.Name + "(" + strings.Join(lits, ", ") + ")"
 	}
 	var recVars []string
+	blocks := twoFiles && r.Bool()
+	outerHalf := r.Bool() // blocks: the outer (printed last) or the inner half of the chain lies in the second file
 	for i := range p.Funcs {
 		f := &p.Funcs[i]
 		out := f1
-		if twoFiles && i%2 == 1 {
+		// the second file holds every other function, or (blocks) the second half of the chain, so that consecutive
+		// frames lie in the same file
+		if twoFiles && ((!blocks && i%2 == 1) || (blocks && (i >= len(p.Funcs)/2) != outerHalf)) {
 			out = f2
 			f.File = "part2.go"
 		}
